@@ -100,7 +100,7 @@ SPEC = {
     'id': 'C10',
     # C10(b): besides its own cursor model (match) C10 re-audits the in-bounds / totality theorems that the other properties
     # proved about the manual index and iterator cores named in C10's anchors (they live with the property that models the core)
-    'lean_modules': ['AITB.Props.C10', 'AITB.Props.C10Util', 'AITB.Props.C10Choose', 'AITB.Props.C10Sites', 'AITB.Props.C20', 'AITB.Props.C11Traces', 'AITB.Props.C12Interp', 'AITB.Props.C12InterpValue', 'AITB.Props.C12Prune', 'AITB.Props.C12PruneStrong', 'AITB.Props.C08Dense',
+    'lean_modules': ['AITB.Props.C10', 'AITB.Props.C10Util', 'AITB.Props.C10Choose', 'AITB.Props.C10Sites', 'AITB.Props.C10FG', 'AITB.Props.C20', 'AITB.Props.C11Traces', 'AITB.Props.C12Interp', 'AITB.Props.C12InterpValue', 'AITB.Props.C12Prune', 'AITB.Props.C12PruneStrong', 'AITB.Props.C08Dense',
                      'AITB.Props.C08', 'AITB.Props.C08Vose', 'AITB.Props.C18', 'AITB.Props.C14', 'AITB.Props.C14c', 'AITB.Props.C19', 'AITB.Props.C17', 'AITB.Props.C20h', 'AITB.Props.C06', 'AITB.Props.C06Factored', 'AITB.Props.C08Models', 'AITB.Props.C04', 'AITB.Props.C09a'],
     'theorems': [# round 4: shared index helpers one level below the anchored code
                  'AITB.CursorUtil.advance_spec', 'AITB.CursorUtil.advance_total', 'AITB.CursorUtil.advance_empty_oob', 'AITB.CursorUtil.advance_lowest',
@@ -109,6 +109,8 @@ SPEC = {
                  'AITB.CursorUtil.setUnion_no_realloc', 'AITB.CursorUtil.setUnion_underreserve_witness', 'AITB.CursorUtil.setUnion_as_written_safe',
                  'AITB.CursorUtil.unionReserve_sufficient', 'AITB.CursorUtil.c10_sites_as_modelled',
                  'AITB.CursorUtil.veccmp_no_oob', 'AITB.CursorUtil.veccmp_oob_witness', 'AITB.CursorUtil.sortedContains_no_oob',
+                 'AITB.FGCursor.recPush_spec', 'AITB.FGCursor.nbLoop_eq_rec', 'AITB.FGCursor.mergeNeighbours_spec', 'AITB.FGCursor.addFactor_keeps_inv',
+                 'AITB.FGCursor.eraseVar_keeps_inv', 'AITB.FGCursor.fg_history_safe', 'AITB.FGCursor.eraseVar_asymmetric_witness',
                  'AITB.Cursor.matchLoop_total', 'AITB.Cursor.match_no_oob', 'AITB.Cursor.matchOrig_oob_witness', 'AITB.Cursor.uses_subset_provides',
                  'AITB.Trie.trie_cursor_refines_spec', 'AITB.Trie.applyCursor_eq',                      # Trie::applyFilters k-way cursor loop, getAllIds/size/erase
                  'AITB.Learn.updateTraces_spec', 'AITB.Learn.updateTraces_nodup',                        # swap-and-pop trace loops (OffPolicyBase, SARSAL)
